@@ -23,6 +23,8 @@ SAFE_LINES = [
     '@@ -1,2 +1,2 @@', '+added', '-removed', '--- a/file', '+++ b/file',
     'é', 'Жя', '中文', 'tab\there', 'nul\x00', '}', '{"a": 1}', 'end.',
     'trailing ', 'mid﻿bom',
+    'progress\rdone', 'a\rb\rc', 'cr\r    spaces', 'vt\x0bff\x0cfs\x1cgs\x1d',
+    'nel\x85ls\u2028ps\u2029',
 ]
 
 
@@ -111,16 +113,15 @@ def _text_lines(draw, enc, kind, declared):
     return lines
 
 
-_opt_enc = st.one_of(st.none(), st.none(), st.sampled_from(FOREIGN_POOL))
-
-
 @st.composite
 def docs(draw, allow_unencoded=True, allow_nonobject_meta=False,
          max_changes=3, max_files=3, meta_min_size=0,
-         unknown_options=False):
+         unknown_options=False, extra_codecs=()):
     crlf = draw(st.integers(0, 3)) == 0
-    main_enc = draw(st.one_of(st.sampled_from(FOREIGN_POOL),
-                              st.sampled_from(FOREIGN_POOL),
+    pool = FOREIGN_POOL + list(extra_codecs)
+    _opt_enc = st.one_of(st.none(), st.none(), st.sampled_from(pool))
+    main_enc = draw(st.one_of(st.sampled_from(pool),
+                              st.sampled_from(pool),
                               st.none() if allow_unencoded else
                               st.just('utf-8')))
     sections = []
@@ -503,7 +504,13 @@ def render(doc):
             elif eff is None:
                 value = data       # stays bytes (indentation removed)
             else:
-                value = data.decode(eff)
+                try:
+                    value = data.decode(eff)
+                except UnicodeDecodeError:
+                    if d is None:
+                        raise
+
+                    value = None      # the defect made it undecodable
 
             if kind == 'preamble' and eff is None:
                 r.model_accepts = False
